@@ -235,7 +235,9 @@ func (m *MmsTables) GetOutOfOrderFileNum() int {
 
 	total := 0
 	for _, v := range m.OutOfOrder {
+		v.lock.RLock()
 		total += v.Len()
+		v.lock.RUnlock()
 	}
 	return total
 }
@@ -329,7 +331,13 @@ func (m *MmsTables) deleteUnorderedFiles(mst string, files []TSSPFile) {
 	defer m.mu.Unlock()
 
 	tfs, ok = m.OutOfOrder[mst]
-	if ok && tfs.Len() == 0 {
+	if !ok {
+		return
+	}
+	tfs.lock.RLock()
+	empty := tfs.Len() == 0
+	tfs.lock.RUnlock()
+	if empty {
 		delete(m.OutOfOrder, mst)
 	}
 }
